@@ -979,3 +979,386 @@ Example from_forward_supported : supported (FFromForward [U (s "T") [s "T"]; U (
 Proof.
   split; [apply g_ex_wf|]. split; [|exact I]. cbn. intros x [<-|[]]. right. now left.
 Qed.
+
+(** * All 50 derives: which impls are emitted, and that each of their headers is well formed *)
+
+Lemma all_derives_length : length all_derives = 50%nat.
+Proof. reflexivity. Qed.
+
+Lemma derive_name_inj_on_all : NoDup (map derive_name all_derives).
+Proof.
+  assert (H : forall l : list str, (fix nd (l : list str) : bool :=
+              match l with [] => true | x :: r => negb (existsb (str_eqb x) r) && nd r end) l = true -> NoDup l).
+  { induction l as [|x r IH]; intros Hl; [constructor|]. apply andb_true_iff in Hl as [Hx Hr]. constructor; [|now apply IH].
+    intros Hin. apply negb_true_iff in Hx. assert (existsb (str_eqb x) r = true); [|congruence].
+    apply existsb_exists. exists x. split; [exact Hin | now apply str_eqb_eq]. }
+  apply H. vm_compute. reflexivity.
+Qed.
+
+Lemma all_derives_complete d : In d all_derives.
+Proof. destruct d as [[]|[]|[]|[]|[]| | | | | | |[]| | | | | | | | | | | | | |]; vm_compute; tauto. Qed.
+
+Section AllDerives.
+  Variable g : generics.
+  Hypothesis Hg : wf_generics g.
+
+  Definition scoped (us : list utext) : Prop := incl (flat_map u_free us) (g_names g).
+
+  Lemma scoped_nil : scoped [].
+  Proof. intros x []. Qed.
+
+  Lemma scoped_cons u us : incl (u_free u) (g_names g) -> scoped us -> scoped (u :: us).
+  Proof. intros Hu Hs x Hx. cbn in Hx. apply in_app_or in Hx as [Hx|Hx]; auto. Qed.
+
+  Lemma scoped_incl us us' : incl us us' -> scoped us' -> scoped us.
+  Proof. intros Hi Hs x Hx. apply Hs. eapply incl_flat_map; eauto. Qed.
+
+  Lemma scoped_in u us : In u us -> scoped us -> incl (u_free u) (g_names g).
+  Proof. intros Hin Hs x Hx. apply Hs. apply in_flat_map. exists u. split; auto. Qed.
+
+  (* a family whose user syntax all comes from a scoped list is supported (FFmt apart) *)
+  Lemma supported_simple f : (match f with FFmt _ _ | FFrom _ => False | _ => True end) -> scoped (utexts_of f) -> supported f g.
+  Proof.
+    intros Hk Hs. split; [exact Hg|]. split; [exact Hs|]. destruct f; try exact I; contradiction.
+  Qed.
+
+  Lemma supported_from_tuple us : scoped us -> supported (FFrom (TTuple RNo us)) g.
+  Proof.
+    intros Hs. split; [exact Hg|]. split; [intros x []|]. split; [exact I|]. exact Hs.
+  Qed.
+
+  Lemma supported_from_user u : incl (u_free u) (g_names g) -> supported (FFrom (TUser RNo u)) g.
+  Proof.
+    intros Hs. split; [exact Hg|]. split; [intros x []|]. split; [exact I|]. exact Hs.
+  Qed.
+
+  Lemma from_expansion_supported attr isv has fields f :
+    scoped (conv_utexts attr ++ fields) -> In f (from_expansion attr isv has fields) -> supported f g.
+  Proof.
+    intros Hs Hin. unfold from_expansion in Hin.
+    assert (Hf : scoped fields) by (eapply scoped_incl; [|exact Hs]; apply incl_appr, incl_refl).
+    destruct attr as [| | | |tys]; cbn [conv_utexts] in *.
+    - destruct (has || (isv && is_nil fields)); [destruct Hin|]. destruct Hin as [<-|[]]. now apply supported_from_tuple.
+    - destruct Hin as [<-|[]]. now apply supported_from_tuple.
+    - destruct (has || (isv && is_nil fields)); destruct Hin.
+    - destruct Hin as [<-|[]]. apply supported_simple; [exact I | exact Hf].
+    - apply in_map_iff in Hin as (t & <- & Ht). apply supported_from_user.
+      eapply scoped_in; [|exact Hs]. apply in_or_app. now left.
+  Qed.
+
+  Lemma from_families_supported i f : scoped (input_utexts (IFromI i)) -> In f (from_families i) -> supported f g.
+  Proof.
+    intros Hs Hin. destruct i as [attr fields|vs]; cbn [from_families input_utexts] in *.
+    - eapply from_expansion_supported; eauto.
+    - apply in_flat_map in Hin as (v & Hv & Hin). eapply from_expansion_supported; [|exact Hin].
+      eapply scoped_incl; [|exact Hs]. intros u Hu. apply in_flat_map. exists v. split; auto.
+  Qed.
+
+  Lemma into_expansion_supported fields c f :
+    scoped fields -> scoped (conv3_utexts c) -> In f (into_expansion fields c) -> supported f g.
+  Proof.
+    intros Hf Hc Hin. unfold into_expansion in Hin. apply in_flat_map in Hin as ([cv sel] & Hcv & Hin).
+    assert (Hcs : scoped (convs_utexts cv)).
+    { eapply scoped_incl; [|exact Hc]. unfold conv3_utexts. destruct Hcv as [E|[E|[E|[]]]]; inversion E; subst; intros u Hu;
+        rewrite !in_app_iff; auto. }
+    destruct (c_consider cv || negb (is_nil (c_tys cv))); [|destruct Hin].
+    apply in_app_or in Hin as [Hin|Hin].
+    - destruct (c_consider cv); [|destruct Hin]. destruct Hin as [<-|[]]. apply supported_simple; [exact I | exact Hf].
+    - apply in_map_iff in Hin as (t & <- & Ht). apply supported_simple; [exact I|]. cbn [utexts_of].
+      eapply scoped_incl; [|exact Hcs]. intros u Hu. unfold convs_utexts. apply in_concat. exists t. split; auto.
+  Qed.
+
+  Lemma into_families_supported i f : scoped (input_utexts (IIntoI i)) -> In f (into_families i) -> supported f g.
+  Proof.
+    intros Hs Hin. cbn [input_utexts] in Hs. unfold into_families in Hin.
+    assert (Hfld : forall fl, In fl (in_fields i) ->
+                              scoped [if_ty fl] /\ forall c, if_convs fl = Some c -> scoped (conv3_utexts c)).
+    { intros fl Hfl. split.
+      - eapply scoped_incl; [|exact Hs]. intros u [<-|[]]. apply in_or_app. right. apply in_flat_map. exists fl. split; [auto|now left].
+      - intros c Hc. eapply scoped_incl; [|exact Hs]. intros u Hu. apply in_or_app. right. apply in_flat_map. exists fl.
+        split; [auto|]. right. now rewrite Hc. }
+    assert (Hall : scoped (map if_ty (filter (fun f0 => negb (if_skip f0)) (in_fields i)))).
+    { intros x Hx. apply in_flat_map in Hx as (u & Hu & Hx). apply in_map_iff in Hu as (fl & <- & Hfl).
+      apply filter_In in Hfl as [Hfl _]. destruct (Hfld fl Hfl) as [H1 _]. apply H1. cbn. rewrite app_nil_r. exact Hx. }
+    apply in_app_or in Hin as [Hin|Hin].
+    - apply in_flat_map in Hin as (fl & Hfl & Hin). destruct (Hfld fl Hfl) as [H1 H2].
+      destruct (if_convs fl) as [c|] eqn:E; [|destruct Hin]. eapply into_expansion_supported; [exact H1 | now apply H2 | exact Hin].
+    - destruct (in_attr i) as [| |c] eqn:Ea.
+      + destruct (forallb (fun f0 => is_none (if_convs f0)) (in_fields i)); [|destruct Hin].
+        eapply (into_expansion_supported _ conv_default); [exact Hall | exact scoped_nil | exact Hin].
+      + eapply (into_expansion_supported _ conv_default); [exact Hall | exact scoped_nil | exact Hin].
+      + eapply into_expansion_supported; [exact Hall | | exact Hin].
+        eapply scoped_incl; [|exact Hs]. apply incl_appl, incl_refl.
+  Qed.
+
+  Lemma asref_expansion_supported tr fty conv f :
+    incl (u_free fty) (g_names g) -> scoped (match conv with ASTypes tys => tys | _ => [] end) ->
+    In f (asref_expansion tr fty conv) -> supported f g.
+  Proof.
+    intros Hf Hc Hin. destruct conv as [| |tys]; cbn [asref_expansion] in Hin.
+    - destruct Hin as [<-|[]]. apply supported_simple; [exact I|]. cbn [utexts_of]. apply scoped_cons; [exact Hf | exact scoped_nil].
+    - destruct Hin as [<-|[]]. apply supported_simple; [exact I|]. cbn [utexts_of]. apply scoped_cons; [exact Hf | exact scoped_nil].
+    - apply in_map_iff in Hin as (ret & <- & Hret).
+      assert (Hr : incl (u_free ret) (g_names g)) by (eapply scoped_in; eauto).
+      destruct (str_eqb (u_text fty) (u_text ret)); [|destruct (mentions_generics fty || mentions_generics ret)];
+        apply supported_simple; try exact I; cbn [utexts_of]; repeat (apply scoped_cons; [assumption|]); exact scoped_nil.
+  Qed.
+
+  Lemma asref_families_supported tr i f : scoped (input_utexts (IAsRefI i)) -> In f (asref_families tr i) -> supported f g.
+  Proof.
+    intros Hs Hin. cbn [input_utexts] in Hs. unfold asref_families in Hin.
+    assert (Hfld : forall fl, In fl (ar_fields i) -> incl (u_free (fst fl)) (g_names g) /\ scoped (conv_utexts (snd fl))).
+    { intros fl Hfl. split.
+      - eapply scoped_in; [|exact Hs]. apply in_or_app. right. apply in_flat_map. exists fl. split; [auto | now left].
+      - eapply scoped_incl; [|exact Hs]. intros u Hu. apply in_or_app. right. apply in_flat_map. exists fl. split; [auto | now right]. }
+    destruct (ar_attr i) as [| |tys] eqn:Ea.
+    - destruct (forallb _ _).
+      + apply in_flat_map in Hin as (fl & Hfl & Hin). destruct (Hfld fl Hfl) as [H1 H2].
+        destruct (snd fl); try contradiction. apply (asref_expansion_supported tr (fst fl) ASNone); [exact H1 | exact scoped_nil | exact Hin].
+      + apply in_flat_map in Hin as (fl & Hfl & Hin). destruct (Hfld fl Hfl) as [H1 H2].
+        destruct (snd fl) as [| | | |tys] eqn:Es; try contradiction.
+        * apply (asref_expansion_supported tr (fst fl) ASNone); [exact H1 | exact scoped_nil | exact Hin].
+        * apply (asref_expansion_supported tr (fst fl) ASForward); [exact H1 | exact scoped_nil | exact Hin].
+        * apply (asref_expansion_supported tr (fst fl) (ASTypes tys)); [exact H1 | exact H2 | exact Hin].
+    - destruct (ar_fields i) as [|fl [|? ?]] eqn:Ef; try contradiction.
+      destruct (Hfld fl (or_introl eq_refl)) as [H1 _]. apply (asref_expansion_supported tr (fst fl) ASForward); [exact H1 | exact scoped_nil | exact Hin].
+    - destruct (ar_fields i) as [|fl [|? ?]] eqn:Ef; try contradiction.
+      destruct (Hfld fl (or_introl eq_refl)) as [H1 _]. apply (asref_expansion_supported tr (fst fl) (ASTypes tys)); [exact H1 | | exact Hin].
+      eapply scoped_incl; [|exact Hs]. apply incl_appl, incl_refl.
+  Qed.
+
+  Lemma dedup_keys_in l k : In k (dedup_keys l) -> In k l.
+  Proof.
+    induction l as [|a l IH]; cbn; [tauto|]. intros [<-|H]; [now left|]. right. apply IH. now apply filter_In in H.
+  Qed.
+
+  Lemma tryinto_families_supported vs f : scoped (flat_map tv_tys vs) -> In f (tryinto_families vs) -> supported f g.
+  Proof.
+    intros Hs Hin. unfold tryinto_families in Hin. apply in_map_iff in Hin as ([sel tys] & <- & Hk).
+    apply dedup_keys_in in Hk. apply in_flat_map in Hk as (v & Hv & Hk). apply in_map_iff in Hk as (sel' & E & _).
+    inversion E; subst. apply supported_simple; [exact I|]. cbn [utexts_of fst snd].
+    eapply scoped_incl; [|exact Hs]. intros u Hu. apply in_flat_map. exists v. split; auto.
+  Qed.
+
+  Theorem families_of_supported d i f : input_ok i g -> In f (families_of d i) -> supported f g.
+  Proof.
+    intros [Hs Hx] Hin. fold (scoped (input_utexts i)) in Hs.
+    destruct d; destruct i; cbn [families_of] in Hin; try contradiction;
+      repeat match goal with b : bool |- _ => destruct b end; cbn [ref_types app map] in Hin; try contradiction;
+      try (eapply asref_families_supported; [exact Hs | exact Hin]; fail);
+      try (eapply from_families_supported; [exact Hs | exact Hin]; fail);
+      try (eapply into_families_supported; [exact Hs | exact Hin]; fail);
+      try (eapply tryinto_families_supported; [exact Hs | exact Hin]; fail);
+      repeat (destruct Hin as [<-|Hin]; [|try contradiction]);
+      try (apply supported_simple; [exact I | first [exact Hs | exact scoped_nil]]; fail);
+      try (split; [exact Hg|]; split; [exact scoped_nil | exact Hx]; fail).
+    all: try (apply supported_simple; [exact I|]; match goal with fwd : option utext |- _ => destruct fwd end;
+              [exact Hs | exact scoped_nil]).
+  Qed.
+
+  Theorem wf_all_derives d i : input_ok i g -> Forall (wf_header g) (headers_of d i g).
+  Proof.
+    intros Hi. unfold headers_of. apply Forall_forall. intros h Hh. apply in_map_iff in Hh as (f & <- & Hf).
+    apply wf_all. eapply families_of_supported; eauto.
+  Qed.
+End AllDerives.
+
+(** * Clause-level corollaries *)
+
+(* the printed order for ANY parameter list, sorted or not *)
+Theorem printed_lifetimes_first ps : lts_first (map p_kind (impl_params ps)) = true.
+Proof. apply impl_params_order. Qed.
+
+Lemma kinds_sorted_app l1 l2 :
+  kinds_sorted l1 = true -> kinds_sorted l2 = true ->
+  (forall a b, In a l1 -> In b l2 -> Nat.leb (kind_rank a) (kind_rank b) = true) -> kinds_sorted (l1 ++ l2) = true.
+Proof.
+  induction l1 as [|k l1 IH]; cbn; intros H1 H2 H12; [exact H2|].
+  apply andb_true_iff in H1 as [Hk H1]. apply andb_true_iff. split.
+  - rewrite forallb_app. apply andb_true_iff. split; [exact Hk|]. apply forallb_forall. intros b Hb. apply H12; [now left | exact Hb].
+  - apply IH; [exact H1 | exact H2 |]. intros a b Ha Hb. apply H12; [now right | exact Hb].
+Qed.
+
+Lemma kinds_sorted_const (k : pkind) l : Forall (fun x => x = k) l -> kinds_sorted l = true.
+Proof.
+  induction 1 as [|x l Hx Hl IH]; cbn; [reflexivity|]. subst x. rewrite IH, andb_true_r.
+  apply forallb_forall. intros y Hy. rewrite Forall_forall in Hl. rewrite (Hl y Hy). now destruct k.
+Qed.
+
+Lemma filter_kind (f : param -> bool) k l :
+  (forall p, f p = true -> p_kind p = k) -> Forall (fun x => x = k) (map p_kind (filter f l)).
+Proof.
+  intros Hf. apply Forall_forall. intros x Hx. apply in_map_iff in Hx as (p & <- & Hp). apply filter_In in Hp as [_ Hp]. now apply Hf.
+Qed.
+
+(* utils.rs add_extra_generic_type_param: whatever order the user wrote, the extended list is lifetimes, types (the new
+   one last among them), consts *)
+Theorem new_type_param_placement g p :
+  p_kind p = KTy ->
+  kinds_sorted (map p_kind (g_params (add_extra_generic_type_param g p))) = true
+  /\ Permutation (g_params (add_extra_generic_type_param g p)) (g_params g ++ [p]).
+Proof.
+  intros Hp. split; [|apply type_param_insert_perm].
+  cbn [add_extra_generic_type_param g_params]. rewrite !map_app.
+  assert (Hl := filter_kind is_lt KLt (g_params g) ltac:(intros q; unfold is_lt; now destruct (p_kind q))).
+  assert (Ht := filter_kind is_ty KTy (g_params g) ltac:(intros q; unfold is_ty; now destruct (p_kind q))).
+  assert (Hc := filter_kind is_const KConst (g_params g) ltac:(intros q; unfold is_const; now destruct (p_kind q))).
+  assert (Hnew : map p_kind [p] = [KTy]) by (cbn; now rewrite Hp). rewrite Hnew.
+  rewrite Forall_forall in Hl, Ht, Hc.
+  apply kinds_sorted_app; [apply (kinds_sorted_const KLt); now apply Forall_forall| |].
+  - apply kinds_sorted_app; [apply (kinds_sorted_const KTy); now apply Forall_forall| |].
+    + apply kinds_sorted_app; [reflexivity | apply (kinds_sorted_const KConst); now apply Forall_forall |].
+      intros a b [<-|[]] Hb. now rewrite (Hc b Hb).
+    + intros a b Ha Hb. rewrite (Ht a Ha). apply in_app_or in Hb as [[<-|[]]|Hb]; [reflexivity | now rewrite (Hc b Hb)].
+  - intros a b Ha Hb. rewrite (Hl a Ha). reflexivity.
+Qed.
+
+(* utils.rs add_extra_where_clauses / add_extra_ty_param_bound: scoping of what the builders add *)
+Theorem where_builder_scoped g ps names :
+  incl (flat_map pred_names (g_where g)) names -> incl (flat_map pred_names ps) names ->
+  incl (flat_map pred_names (g_where (add_extra_where_clauses g ps))) names.
+Proof.
+  intros Hg Hp. cbn [add_extra_where_clauses g_where]. rewrite flat_map_app. now apply incl_app.
+Qed.
+
+Theorem bound_builder_scoped g b names :
+  incl (flat_map param_names (g_params g)) names -> incl (bound_names b) names ->
+  incl (flat_map param_names (g_params (add_extra_ty_param_bound g b))) names.
+Proof.
+  intros Hg Hb. cbn [add_extra_ty_param_bound g_params]. apply incl_flat_map_each. intros q Hq.
+  apply in_map_iff in Hq as (p & <- & Hp).
+  assert (Hu : incl (param_names p) names).
+  { intros x Hx. apply Hg. apply in_flat_map. exists p. split; auto. }
+  destruct (is_ty p); [|exact Hu]. unfold param_names, add_bound; cbn [p_bounds]. rewrite flat_map_app. apply incl_app; [exact Hu|].
+  cbn. now rewrite app_nil_r.
+Qed.
+
+(* the two clauses of the property text, for every header of every derive *)
+Theorem own_generics_only_on_the_type d i g :
+  wf_generics g -> input_ok i g ->
+  forall h, In h (headers_of d i g) ->
+    (forall t, In t (header_tys h) -> ty_ok g t) /\ existsb is_input (trait_args h ++ [h_self h]) = true.
+Proof.
+  intros Hg Hi h Hh. pose proof (wf_all_derives g Hg d i Hi) as H. rewrite Forall_forall in H. destruct (H h Hh).
+  split; [|assumption]. now apply Forall_forall.
+Qed.
+
+Theorem added_bounds_in_scope d i g :
+  wf_generics g -> input_ok i g ->
+  forall h, In h (headers_of d i g) ->
+    incl (header_names h) (map p_name (h_params h))
+    /\ (forall q, In q (h_params h) -> In (p_name q) (g_names g) \/ fresh_name (p_name q) = true).
+Proof.
+  intros Hg Hi h Hh. pose proof (wf_all_derives g Hg d i Hi) as H. rewrite Forall_forall in H. destruct (H h Hh) as [_ _ _ _ Ho _ _ Hs _].
+  split; [exact Hs|]. intros q Hq. destruct (Ho q Hq) as [(p & Hp & (_ & Hn & _))|Hf]; [left | now right].
+  rewrite Hn. now apply in_map.
+Qed.
+
+(** * TryInto: one impl per distinct (selection, field types) key *)
+
+Lemma filter_keys_distinct f l : keys_distinct l = true -> keys_distinct (filter f l) = true.
+Proof.
+  induction l as [|k l IH]; cbn; [auto|]. intros H. apply andb_true_iff in H as [Hk Hl].
+  destruct (f k); cbn; [|now apply IH]. rewrite IH by assumption. rewrite andb_true_r.
+  apply forallb_forall. intros x Hx. apply filter_In in Hx as [Hx _]. rewrite forallb_forall in Hk. now apply Hk.
+Qed.
+
+Theorem tryinto_keys_distinct vs : keys_distinct (tryinto_keys vs) = true.
+Proof.
+  unfold tryinto_keys. generalize (flat_map (fun v => map (fun sel => (sel, tv_tys v)) (ref_types (tv_owned v) (tv_ref v) (tv_ref_mut v))) vs).
+  induction l as [|k l IH]; cbn; [reflexivity|]. apply andb_true_iff. split.
+  - apply forallb_forall. intros x Hx. apply filter_In in Hx as [_ Hx]. exact Hx.
+  - now apply filter_keys_distinct.
+Qed.
+
+(** * Attribute presence, template by template (decidable over the regenerated list) *)
+
+Theorem all_automatically_derived : forall t, In t impl_templates -> t_auto t = true.
+Proof.
+  assert (H : forallb t_auto impl_templates = true) by (vm_compute; reflexivity).
+  rewrite forallb_forall in H. exact H.
+Qed.
+
+(* every template is either complete or lacks exactly attributes recorded for it *)
+Theorem attrs_decided : forall t, In t impl_templates ->
+  lacks t = [] \/ (lacks t <> [] /\ forall m, In m (lacks t) -> In (t_file t, t_idx t, m) known_offender_keys).
+Proof.
+  intros t Ht. destruct (lacks t) as [|m l] eqn:E; [now left | right]. split; [discriminate|].
+  intros m' Hm. apply offender_of; [exact Ht | now rewrite E].
+Qed.
+
+(** * Examples: the decision layer on concrete inputs *)
+
+(* enum E<T> { #[from] A(T), B { x: i32, y: T }, C }  ->  only the variant carrying #[from] gets an impl *)
+Example from_explicit_variant :
+  from_families (FromEnum [V [U (s "T") [s "T"]] CEmpty; V [U (s "i32") []; U (s "T") [s "T"]] CAbsent; V [] CAbsent])
+  = [FFrom (TTuple RNo [U (s "T") [s "T"]])].
+Proof. reflexivity. Qed.
+
+(* #[into(owned(i64), ref)] on a field next to an unattributed field: no struct-level impl *)
+Example into_field_only :
+  into_families (II SAbsent [IF (U (s "i32") []) false (Some (C3 (Cv false [[U (s "i64") []]]) (Cv true []) (Cv false [])));
+                             IF (U (s "u8") []) false None])
+  = [FInto SOwned [U (s "i64") []]; FInto SRef [U (s "i32") []]].
+Proof. reflexivity. Qed.
+
+(* #[as_ref(str, [T])] struct S<T>(Vec<T>): specialised (plain) for str? no - the field mentions T, both are forwarded *)
+Example asref_kinds :
+  asref_families (s "AsRef") (AR (ASTypes [U (s "str") []; U (s "Vec<T>") [s "T"]]) [(U (s "Vec<T>") [s "T"], CAbsent)])
+  = [FAsRef (s "AsRef") (AsForwarded (U (s "Vec<T>") [s "T"]) (U (s "str") []));
+     FAsRef (s "AsRef") (AsPlain (U (s "Vec<T>") [s "T"]))].
+Proof. reflexivity. Qed.
+
+Example all_derives_input_ok : input_ok (IIntoI (II SEmpty [IF (U (s "Vec<T>") [s "T"]) false None])) g_ex.
+Proof. split; [|exact I]. cbn. intros x [<-|[]]. right. now left. Qed.
+
+(** * Acceptance: every documented shape is accepted *)
+
+Lemma forallb_impl {A} (f h : A -> bool) l : (forall a, f a = true -> h a = true) -> forallb f l = true -> forallb h l = true.
+Proof. intros H Hf. apply forallb_forall. intros a Ha. apply H. rewrite forallb_forall in Hf. now apply Hf. Qed.
+
+Lemma leb1_cases n : Nat.leb n 1 = true -> n = 0%nat \/ n = 1%nat.
+Proof. destruct n as [|[|n]]; cbn; auto; discriminate. Qed.
+
+Lemma fields_pos_not_unit k : Nat.leb 1 (vk_fields k) = true -> negb (vk_is_unit k) = true.
+Proof. now destruct k. Qed.
+
+Theorem documented_accepted d fwd sh : documented d sh = true -> accepts d fwd sh = true.
+Proof.
+  intros H. destruct sh as [k|vs].
+  - (* structs *)
+    destruct d as [o|o|o|o|o| | | | | | |o| | | | | | | | | | | | | |]; cbn in *; try discriminate; try reflexivity;
+      try (destruct fwd; cbn); try reflexivity; try exact H;
+      try (apply andb_true_iff in H as [H _]; exact H);
+      try (now apply fields_pos_not_unit);
+      try (destruct o; exact H).
+  - (* enums *)
+    destruct d as [o|o|o|o|o| | | | | | |o| | | | | | | | | | | | | |]; cbn in *; try discriminate; try reflexivity;
+      try exact H.
+    + destruct o; cbn in *;
+        (eapply forallb_impl; [|exact H]; intros k Hk; cbn in Hk;
+         first [ apply leb1_cases in Hk as [->| ->]; reflexivity | apply Nat.eqb_eq in Hk; rewrite Hk; reflexivity ]).
+    + eapply forallb_impl; [|exact H]. intros k Hk. now destruct k.
+Qed.
+
+(* mul.md: "Deriving `Mul` for enums is not (yet) supported, except when you use `#[mul(forward)]`" *)
+Theorem mul_forward_enum_accepted o vs : accepts (DMulLike o) true (SEnum vs) = true.
+Proof. reflexivity. Qed.
+
+(* and the refusals the documentation announces *)
+Theorem struct_only_derives_refuse_enums d vs :
+  In d ([DSum; DProduct; DAsRef; DAsMut; DConstructor; DInto; DDeref; DDerefMut; DIndex; DIndexMut; DIntoIterator]
+        ++ map DAddAssignLike all_addops) ->
+  accepts d false (SEnum vs) = false.
+Proof. cbn. intuition (subst; reflexivity). Qed.
+
+Theorem enum_only_derives_refuse_structs d k :
+  In d [DIsVariant; DUnwrap; DTryUnwrap; DTryFrom; DTryInto] -> accepts d false (SStruct k) = false.
+Proof. cbn. intuition (subst; reflexivity). Qed.
+
+Example documented_nontrivial :
+  documented (DFmt ODisplay) (SEnum [VUnit; VTuple 1; VNamed 1]) = true
+  /\ documented (DFmt OBinary) (SEnum [VUnit]) = false
+  /\ accepts (DFmt OBinary) false (SEnum [VUnit]) = false
+  /\ accepts DUnwrap false (SEnum [VTuple 2; VNamed 1]) = false.
+Proof. repeat split. Qed.
